@@ -659,6 +659,11 @@ CO_ERR COSdoEndDownloadBlock(CO_SDO *srv)
     cmd = CO_GET_BYTE(srv->Frm, 0);
     if ((cmd & 0x01) != 0) {
         n      = (cmd & 0x1C) >> 2;
+        if ((uint32_t)n > srv->Buf.Num) {
+            COSdoAbort(srv, CO_SDO_ERR_LEN);
+            COSdoAbortReq(srv);
+            return (CO_ERR_SDO_ABORT);
+        }
         len    = ((uint32_t)srv->Buf.Num - n);
         result = COObjWrBufCont(srv->Obj, srv->Node, srv->Buf.Start, len);
         if (result != CO_ERR_NONE) {
